@@ -1103,6 +1103,23 @@ ares_status_t ares_dns_write_buf(const ares_dns_record_t *dnsrec,
 
   orig_len = ares_buf_len(buf);
 
+  /* Name compression pointers are offsets from the start of the message
+   * (RFC 1035 4.1.4) and ares_dns_name_write() takes them from the buffer
+   * length.  If the buffer already holds data (TCP length prefix, earlier
+   * queued messages), serialise into a scratch buffer and append that. */
+  if (orig_len != 0) {
+    unsigned char *msg     = NULL;
+    size_t         msg_len = 0;
+
+    status = ares_dns_write(dnsrec, &msg, &msg_len);
+    if (status != ARES_SUCCESS) {
+      return status;
+    }
+    status = ares_buf_append(buf, msg, msg_len);
+    ares_free(msg);
+    return status;
+  }
+
   status = ares_dns_write_header(dnsrec, buf);
   if (status != ARES_SUCCESS) {
     goto done;
